@@ -13,7 +13,9 @@ goroutine (instance goroutines, main loop, drain goroutine; default and zone-awa
 The configuration space includes the shape of the terminal-error predicate (nil, never, terminal class, everything incl. nil,
 not-transient incl. nil) and the bubble clock runs in half hedging delays (results are delivered between two ticks as well as
 right after one), so the time at which the hedging ticker releases a held-back request is observable.
-Additional modules, bound code -> spec the same way: QuorumDo.tla (legacy ReplicationSet.Do with delayed extra requests)
+QuorumReadTrace explores the unobserved steps with a partial-order reduction (Begin steps in index order, post-return Abort
+steps in index order), which keeps 5-6 instance samples affordable.
+Additional modules: QuorumDo.tla (legacy ReplicationSet.Do with delayed extra requests)
 and QuorumMulti.tla (DoMultiUntilQuorumWithoutSuccessfulContextCancellation, 2..3 sets).
 
 Development knobs (not used by MANIFEST commands): VERIF_TLC_WORKERS, C11_SKIP_MC=1 (skip step 1, which does not touch
@@ -36,9 +38,12 @@ META = {
                   "the real code (incl. rand.Perm minimisation) are validated as behaviours of the specification by TLC.",
     "level_note": "Trusted: TLC, testing/synctest quiescence, the projection (calls per instance, return value, cleanup counts, context cause "
                   "class). The real code is driven at quiescent points only (one environment step, then run to quiescence); finer races "
-                  "(select with two ready cases) are covered on the specification only. 5-6 instances / 4 zones by sampling. The multi-set "
-                  "variant and legacy ReplicationSet.Do are not modelled.",
-    "technique": "TLA+ specifications (QuorumRead.tla, QuorumDo.tla, QuorumMulti.tla) model-checked by TLC; gen/replay (QuorumReadGen.tla) and "
+                  "(select with two ready cases) are covered on the specification only. 5-6 instances / 4 zones by sampling. Legacy "
+                  "ReplicationSet.Do (<=3, thorough 4 instances; half-delay clock; bound both ways, gen/replay only where no two delayed "
+                  "goroutines compete for a forceStart token) and the multi-set variant (2..3 sets of 1..2 instances, default tracker, "
+                  "no minimisation, bound code->spec only) have their own modules; the multi-set in-flight tracker is not modelled. "
+                  "Quick checks deadlock freedom; the liveness (termination) configurations run in the thorough tier.",
+    "technique": "TLA+ specifications (QuorumRead.tla, QuorumDo.tla, QuorumMulti.tla) model-checked by TLC; gen/replay (QuorumReadGen.tla, QuorumDoGen.tla) and "
                  "record/validate (Quorum{Read,Do,Multi}Trace.tla) conformance",
     "design_ref": "DESIGN.md 2 C11",
 }
@@ -93,7 +98,8 @@ def add_extra(ctx, key, n):
 def model_check(ctx, module):
     """Exhaustive model checking of one module's configurations (the property is decided here)."""
     quick = ctx.tier == "quick"
-    cfgs = {"QuorumRead": ["MC_quick.cfg", "MC_live.cfg"] if quick else ["MC_quick.cfg", "MC_thorough.cfg", "MC_live3.cfg"],
+    # quick: deadlock freedom (NextD) stands in for termination; the liveness configurations are thorough-only
+    cfgs = {"QuorumRead": ["MC_quick.cfg"] if quick else ["MC_quick.cfg", "MC_live.cfg", "MC_thorough.cfg", "MC_live3.cfg"],
             "QuorumDo": ["MC_do3.cfg"] if quick else ["MC_do.cfg", "MC_do_live.cfg"],
             "MCQuorumMulti": ["MC_multi_quick.cfg"] if quick else ["MC_multi_thorough.cfg", "MC_multi_live.cfg"]}[module]
     for cfg in cfgs:
@@ -115,16 +121,24 @@ def gen_replay(ctx):
     runs = []
     if ctx.tier == "quick":
         runs.append(dict(cfg="Gen_n3core.cfg"))
-        runs.append(dict(cfg="Gen_sim4q.cfg", simulate="num=600", depth=60))
     else:
         runs.append(dict(cfg="Gen_n3.cfg"))
         runs.append(dict(cfg="Gen_sim4.cfg", simulate="num=2000", depth=60))
         runs.append(dict(cfg="Gen_sim4q.cfg", simulate="num=2000", depth=60))
         runs.append(dict(cfg="Gen_sim6.cfg", simulate="num=2000", depth=80))
         runs.append(dict(cfg="Gen_sim6q.cfg", simulate="num=2000", depth=80))
+    replay_runs(ctx, "QuorumReadGen", "TestReplay", runs)
+
+
+def gen_replay_do(ctx):
+    """spec -> code, legacy executor (configurations without competition for a forceStart token)"""
+    replay_runs(ctx, "QuorumDoGen", "TestReplayDo", [dict(cfg="Gen_do3.cfg" if ctx.tier == "quick" else "Gen_do4.cfg")])
+
+
+def replay_runs(ctx, module, test, runs):
     for kw in runs:
         cfg = kw.pop("cfg")
-        r = tlc(ctx, "QuorumReadGen", cfg=cfg, timeout=3000, deadlock=False,
+        r = tlc(ctx, module, cfg=cfg, timeout=3000, deadlock=False,
                 workers=(1 if "simulate" in kw else WORKERS), **kw)   # one worker: -simulate is reproducible for a seed
         ctx.require_tlc_ok(r, cfg)
         if r.emitted == 0:
@@ -147,7 +161,7 @@ def gen_replay(ctx):
         env = {"VERIF_IN": uniq}
         if os.environ.get("C11_SELFTEST") == "corrupt_expected":
             env["VERIF_CORRUPT"] = "7"
-        res = harness(ctx, "TestReplay", env)
+        res = harness(ctx, test, env)
         if res.get("cases") != n:
             incon("%s: harness replayed %s of %d behaviours" % (cfg, res.get("cases"), n))
         absorb(ctx, res, "replay " + cfg)
@@ -220,7 +234,7 @@ def record_validate(ctx):
                "VERIF_SAMPLE_NS": "[4]", "VERIF_SAMPLES": 400, "VERIF_SAMPLE_MAXZ": 3}
     else:
         env = {"VERIF_NS": "[1,2,3]", "VERIF_FLAGS": "all", "VERIF_ROUNDS": 2, "VERIF_MAXZ": 3,
-               "VERIF_DFS4": 1, "VERIF_SAMPLE_NS": "[4,5,6]", "VERIF_SAMPLES": 600, "VERIF_SAMPLE_MAXZ": 4}
+               "VERIF_DFS4": 1, "VERIF_SAMPLE_NS": "[4,5,6]", "VERIF_SAMPLES": 3000, "VERIF_SAMPLE_MAXZ": 4}
     tp = ctx.path("traces.ndjson")
     env["VERIF_TRACE_OUT"] = tp
     if os.environ.get("C11_SELFTEST") == "corrupt_trace":
@@ -302,6 +316,7 @@ def record_validate_do(ctx):
     if os.environ.get("C11_SELFTEST") == "corrupt_trace_do":
         env["VERIF_CORRUPT_TRACE"] = "5"
     record_validate_simple(ctx, "TestRecordDo", "QuorumDoTrace", "Do", env)
+    gen_replay_do(ctx)
 
 
 def record_validate_multi(ctx):
